@@ -214,6 +214,34 @@ def run_c09(run_, rng, tier, exe):
         return None
     _, b1, m1 = l2_family(run_, exe, sf, judge_sf, cls=lambda s, r: "same file " + s["order"], label="C09a'")
     bad += b1; mism += m1
+    # (a'') a backup is due but cannot be taken (the backup name is a non-empty directory; the -B prefix names a directory
+    # that does not exist; the directory is not writable): the original must still be at its path
+    blocked = []
+    for _ in range(30 if q else 300):
+        sec = scen.section(rng, rng.choice(["f", "d/g"]), kind="change", fmt=rng.choice(["unified", "context", "git"]), nonl=False)
+        how = rng.choice(["dir-at-backup-name", "missing-prefix-dir", "readonly-dir"])
+        s = scen.base_scenario(rng, [sec], opts={"b": 1})
+        tp = sec["path"]
+        if how == "dir-at-backup-name":
+            s["tree"][tp + ".orig"] = ("D", 0o755, b""); s["tree"][tp + ".orig/x"] = ("R", 0o644, b"x\n")
+        elif how == "missing-prefix-dir":
+            s["opts"]["B"] = "nodir/"
+        else:
+            if "/" not in tp:
+                continue
+            d_ = tp.rsplit("/", 1)[0]
+            s["tree"][d_] = ("D", 0o555, b"")
+        s["how"] = how; s["target"] = tp
+        blocked.append(s)
+
+    def judge_blocked(s, r):
+        t = tree_no_meta(r["tree"]); tp = s["target"]; orig = s["tree"][tp][2]
+        names = [tp, tp + ".orig", "nodir/" + tp]
+        if not any(t.get(n_) and t[n_][0] == "R" and t[n_][2] == orig for n_ in names):
+            return "backup due but impossible (%s): afterwards the original content of %s is at none of %s (exit %d)" % (s["how"], tp, names, r["exit"])
+        return None
+    _, b2_, m2_ = l2_family(run_, exe, blocked, judge_blocked, cls=lambda s, r: "backup blocked %s exit %d" % (s["how"], r["exit"]), label="C09a''")
+    bad += b2_; mism += m2_
     # (b) SIGKILL before every system call that touches the scenario
     ks = fault_scenarios(rng, 6 if q else 50)
     for _ in range(4 if q else 30):
